@@ -129,6 +129,7 @@ def run_tree(rec, tier, seed, ti, spec, other):
                    ("relative-roots", dict(mode="relative-roots")), ("dot-root", dict(mode="dot-root")), ("unnormalised-roots", dict(mode="unnormalised-roots"))]
         if have_moved:
             configs.append(("other-tree-first", dict(mode="other-tree-first")))
+            configs.append(("same-instance-edited", dict(mode="same-instance-edited")))
         if ti < 0:
             # the hand-written tree has cross-directory enum references: try more enumeration orders
             configs += [("walk-shuffle-%d" % w, dict(walk_seed=w)) for w in (101, 202, 303, 404, 505, 606)]
